@@ -142,3 +142,13 @@ PROPS['C16']={
  'bounds_statement':'same pipeline as C17, asserting serialise -> parse = identity (value equality through the crate\'s own PartialEq-equivalent structure) for every wire type incl. every rule form with keyword-like operands (IN, WITH, FROM, MATCH, trailing-slash prefixes), optional fields present/absent, empty collections, key table self-consistency; byte-identical re-serialisation follows from value equality because serialisation is a function of the value.',
  'assumptions':WIRE_ASSUME+['Unicode beyond ASCII in free strings is covered by fixed samples only; pretty printing is serde_json\'s'],
  'obligations':[{'name':w,'module':'harness.wire','cls':'RoundTrip','quick':{'what':w,'prop':'C16','nbytes':1},'thorough':{'what':w,'prop':'C16','nbytes':2},'validate':{'quick':6,'thorough':24}} for w in WIRE_TYPES_Q]}
+
+PROPS['C19']={
+ 'bounds_statement':'(1) Statement v0.1 documents declaring each known / an unknown predicate type around predicate documents of each format, hybrids and the empty object (free leaves), parsed by the version-detecting StatementWrapper from MIR: acceptance implies the declared type names the recognised format, and no predicate document is accepted by two formats; (2) every predicate / statement value of bounded shape (LinkV02, SLSA v0.1 with timestamps in Z and +01:00 notation, SLSA v0.2; Naive and v0.1 statements) serialises to a form that parses back to an equal value on every channel; (3) from_meta / merge carry all link fields over.',
+ 'assumptions':WIRE_ASSUME+['chrono text <-> instant through the ghost-string model (C06); strum\'s EnumIter-generated iterators run from MIR'],
+ 'obligations':[
+   {'name':'statement_consistency','module':'harness.C19','cls':'StatementConsistency','quick':{},'thorough':{},'validate':{'quick':8,'thorough':24}},
+   {'name':'roundtrip_predicate','module':'harness.C19','cls':'WireC19','quick':{'what':'predicate','nbytes':1},'thorough':{'what':'predicate','nbytes':2},'validate':{'quick':8,'thorough':24}},
+   {'name':'roundtrip_statement','module':'harness.C19','cls':'WireC19','quick':{'what':'statement','nbytes':1},'thorough':{'what':'statement','nbytes':2},'validate':{'quick':8,'thorough':24}},
+   {'name':'from_meta','module':'harness.C19','cls':'FromMeta','quick':{},'thorough':{}},
+ ]}
